@@ -12,6 +12,7 @@ structure Side where
   rbs    : List (Nat × RB.SB) := []   -- receive buffer of every stream object created on this side
   timers : List Nat := []             -- absolute fire times of armed `checkTimeout` timers
   notice : Nat := 0                   -- session-closing notices sent (ghost)
+  csent  : Nat := 0                   -- stream-closing frames sent (ghost)
   wfail  : Bool := false              -- every connection of this side fails on Write (the reset was seen by the writer first)
 
 def ev (sd : Side) (e : Ev) : Side × Res :=
@@ -63,6 +64,7 @@ def closeStream (sd : Side) (id : Nat) (active : Bool) (now inact : Nat) : Side 
       -- before the tombstone and the count--
       ((sessClose sd false).1, .refused)
     else
+    let sd := if active then { sd with csent := sd.csent + 1 } else sd   -- the closing frame is on the wire
     let (sd, _) := ev sd (.csTomb id)
     let (sd, _) := ev sd .csDecr
     (afterDecr sd now inact, .ok)
@@ -93,6 +95,11 @@ def recv (sd : Side) (sid seq closing : Nat) (pl : Bytes) (now inact : Nat) : Si
         if r == Res.ok then
           let (sd, _) := ev sd .recvIncr
           (setRB sd sid (RB.init 0), true)
+        else if r == Res.refused && Gen.Session.refusedStreamClosedActively && !sd.sm.closed then
+          -- refused (accept backlog full) and told: count++ after the unlock, then `go newStream.Close()`
+          let (sd, _) := ev sd .recvIncr
+          let sd := setRB sd sid (RB.init 0)
+          ((closeStream sd sid true now inact).1, false)
         else (sd, false)   -- refused: the accept backlog is full; the id is now a tombstone
     match entOf sd sid with
     | some .tomb => (sd, "dropped")
@@ -126,6 +133,6 @@ def b2s (b : Bool) : String := if b then "1" else "0"
 
 def stateStr (sd : Side) : String :=
   let c := sd.sm.count % 4294967296
-  s!"closed={b2s sd.sm.closed} count={c} open={showEnts sd .opn} closing={showEnts sd .closing} tomb={showEnts sd .tomb} accq={sd.sm.accq.length} broken={b2s sd.sm.broken}"
+  s!"closed={b2s sd.sm.closed} count={c} open={showEnts sd .opn} closing={showEnts sd .closing} tomb={showEnts sd .tomb} accq={sd.sm.accq.length} broken={b2s sd.sm.broken} sent={sd.csent}/{sd.notice}"
 
 end SO
